@@ -371,7 +371,8 @@ func pickNode(t *rapid.T, lists ...[]*dt.Node) *dt.Node {
 // otherTags are non-string universal tags a leaf can be re-tagged to (content
 // kept): BOOLEAN, INTEGER, BIT STRING, OCTET STRING, NULL, OID, ENUMERATED,
 // UTCTime, GeneralizedTime, GraphicString, GeneralString.
-var otherTags = []uint32{1, 2, 3, 4, 5, 6, 10, 23, 24, 25, 27}
+// (the last five: universal tag numbers that need more than one identifier octet - 1f 1f, 1f 20, 1f 7f, 1f 81 00, 1f 81 80 80 00)
+var otherTags = []uint32{1, 2, 3, 4, 5, 6, 10, 23, 24, 25, 27, 31, 32, 127, 128, 1 << 21}
 
 // typedValues replace the whole leaf (tag and content) by a well-formed value of
 // another type - what a decoder hands to a lint as int64 / []byte / bool / nil.
